@@ -382,9 +382,17 @@ def generate(template_path: str) -> Tuple[str, List[dict]]:
                         cuts.append((a, src.toks[it.last].end))
             for a, b in sorted(cuts, reverse=True):
                 text = text[:a] + text[b:]
+            # optional, STATED path substitutions (`| subst=FROM=>TO;;FROM2=>TO2`): used to point an import at a contract double
+            substs = []
+            for sub in [x for x in opts.get("subst", "").split(";;") if x]:
+                a, b = sub.split("=>")
+                if a.strip() not in text:
+                    raise Lost(f"{src.spec}: subst source `{a.strip()}` not found")
+                text = text.replace(a.strip(), b.strip())
+                substs.append([a.strip(), b.strip()])
             uid += 1
             out.append(f"/*@B:{uid}*/\n{text}\n/*@E:{uid}*/")
-            manifest.append({"uid": uid, "kind": "wholefile", "src": src.spec, "name": src.spec, "tokens": norm(text)})
+            manifest.append({"uid": uid, "kind": "wholefile", "src": src.spec, "name": src.spec, "tokens": norm(text), "subst": substs})
             for it in all_items(src):
                 if it.kind in ("impl", "trait") and it.body_open is not None:
                     for f in items_in(src.toks, it.body_open + 1, it.body_close):
